@@ -345,6 +345,9 @@ pub fn rename_keywords(field_name: &str) -> Cow<'_, str> {
         | "static" | "struct" | "trait" | "true" | "type" | "unsafe" | "use" | "where" | "while" | "abstract" | "become"
         | "box" | "do" | "final" | "gen" | "macro" | "override" | "priv" | "try" | "typeof" | "unsized" | "virtual"
         | "yield" => Cow::Owned(format!("r#{field_name}")),
+        // what case conversion leaves of a name like `_` or `_1` is not an identifier
+        "" | "_" => Cow::Borrowed("__"),
+        _ if field_name.starts_with(char::is_numeric) => Cow::Owned(format!("_{field_name}")),
         _ => Cow::Borrowed(field_name),
     }
 }
